@@ -17,14 +17,14 @@ ID = "C04"
 CASES = {"quick": 900, "thorough": 10000}
 FLOOR = {"quick": 700, "thorough": 8000}
 FLOOR_COUNTERS = {
-    "quick": {"more_than_4096_rows": 25, "caller_buffers_overwritten_after_fit": 300, "fits_through_fit_transform": 400, "configured_not_by_constructor": 400, "non_default_containers": 400, "objective_judgments": 2500, "competitors_tried": 20000, "grids_judged": 600, "pca_limit_judged": 400, "regression_limit_judged": 250, "regression_limit_with_surplus_components": 100, "arpack_grids": 60, "randomized_grids": 60},
-    "thorough": {"more_than_4096_rows": 300, "caller_buffers_overwritten_after_fit": 4000, "fits_through_fit_transform": 5000, "configured_not_by_constructor": 5000, "non_default_containers": 5000, "objective_judgments": 30000, "competitors_tried": 250000, "grids_judged": 7000, "pca_limit_judged": 5000, "regression_limit_judged": 3000, "regression_limit_with_surplus_components": 1200, "arpack_grids": 800, "randomized_grids": 800},
+    "quick": {"earlier_data_with_the_same_shape_means_and_norms": 500, "more_than_4096_rows": 25, "caller_buffers_overwritten_after_fit": 300, "fits_through_fit_transform": 400, "configured_not_by_constructor": 400, "non_default_containers": 400, "objective_judgments": 2500, "competitors_tried": 20000, "grids_judged": 600, "pca_limit_judged": 400, "regression_limit_judged": 250, "regression_limit_with_surplus_components": 100, "arpack_grids": 60, "randomized_grids": 60},
+    "thorough": {"earlier_data_with_the_same_shape_means_and_norms": 5500, "more_than_4096_rows": 300, "caller_buffers_overwritten_after_fit": 4000, "fits_through_fit_transform": 5000, "configured_not_by_constructor": 5000, "non_default_containers": 5000, "objective_judgments": 30000, "competitors_tried": 250000, "grids_judged": 7000, "pca_limit_judged": 5000, "regression_limit_judged": 3000, "regression_limit_with_surplus_components": 1200, "arpack_grids": 800, "randomized_grids": 800},
 }
 RULE = (
     "case = centred X, Y (1-3 targets), k, space, a grid of 9 mixings from 0 to 1 (exact least-squares regressor) plus "
     "ridge fits at 2 random mixings; judged: PCA limit, regression limit, objective value against the closed-form optimum "
     "and against competitor subspaces (random frames, PCA frame, regression frame, perturbations of the fitted frame at "
-    "1e-1/1e-2/1e-3), monotonicity of both losses along the grid. non-trivial = full grid judged; distinct by data+config hash."
+    "1e-1/1e-2/1e-3), monotonicity of both losses along the grid; estimators with a past were fitted on a sibling table (same shape, column means and norms), their buffers then overwritten. non-trivial = full grid judged; distinct by data+config hash."
 )
 ASSUMPTIONS = [
     "objective J(Q) = a||X - QQ^T X||^2 + (1-a)||Yhat - QQ^T Yhat||^2 with Q an orthonormal basis of the latent coordinates of the training set",
